@@ -1,5 +1,6 @@
 // ---- wire_req2 prelude (C13, unit codec_requests2): stand-ins and wire specification shared by the second batch of
 // request codecs. Requires vx/prelude/{bytes,text,wire_core}.rs. No body of /repo is re-typed here.
+// (The Permissions codec specification is in vx/prelude/wire_perm.rs so that other units can include it alone.)
 
 // ---- IggyDuration (sdk/src/utils/duration.rs: a wrapper of std::time::Duration) ---------------------------------------------------
 // A std Duration is a whole number of nanoseconds (secs: u64, subsec nanos < 10^9; derived Eq compares both, i.e. the total).
@@ -121,93 +122,16 @@ impl vstd::std_specs::cmp::PartialEqSpecImpl for UserStatus {
 // user status: one byte, 1 = active, 2 = inactive
 pub open spec fn status_code(s: UserStatus) -> u8 { match s { UserStatus::Active => 1, UserStatus::Inactive => 2 } }
 
-// ---- Permissions (sdk/src/models/permissions.rs): mathematical view and wire format ------------------------------------------------------
-// Requires vx/prelude/{common,mapiter}.rs (HashMap stand-in; iteration order = `key_order()`, an uninterpreted attribute of the map
-// object) and the extracted types Permissions, GlobalPermissions, StreamPermissions, TopicPermissions.
-// View: the nested hash maps as mathematical maps; an ABSENT map and an EMPTY map are the same view (no entries).
-pub ghost struct StreamV {
-    pub manage_stream: bool, pub read_stream: bool, pub manage_topics: bool, pub read_topics: bool, pub poll_messages: bool, pub send_messages: bool,
-    pub topics: Map<u32, TopicPermissions>,
-}
-pub ghost struct PermV { pub global: GlobalPermissions, pub streams: Map<u32, StreamV> }
-pub open spec fn topics_view(o: Option<HashMap<u32, TopicPermissions>>) -> Map<u32, TopicPermissions> { match o { None => Map::empty(), Some(m) => m@ } }
-pub open spec fn stream_view(s: StreamPermissions) -> StreamV {
-    StreamV { manage_stream: s.manage_stream, read_stream: s.read_stream, manage_topics: s.manage_topics, read_topics: s.read_topics,
-              poll_messages: s.poll_messages, send_messages: s.send_messages, topics: topics_view(s.topics) }
-}
-pub open spec fn streams_view(o: Option<HashMap<u32, StreamPermissions>>) -> Map<u32, StreamV> {
-    match o { None => Map::empty(), Some(m) => Map::new(m@.dom(), |k: u32| stream_view(m@[k])) }
-}
-pub open spec fn perm_view(p: Permissions) -> PermV { PermV { global: p.global, streams: streams_view(p.streams) } }
-// equality of two Permissions values "as maps": equal global permissions, equal stream/topic maps with equal entries
-pub open spec fn perm_eq(a: Permissions, b: Permissions) -> bool { perm_view(a) =~~= perm_view(b) }
-
-// wire format. One byte per flag (1 = set).
-//   Permissions:  10 global flags | has_streams:u8 [| stream entry (| 1 | stream entry)* | 0]
-//   stream entry: stream_id:u32 | 6 flags | has_topics:u8 [| topic entry (| 1 | topic entry)* | 0]
-//   topic entry:  topic_id:u32 | 4 flags
-// i.e. every entry is followed by a continuation byte (1 = another entry follows); `has_* = 1` promises at least one entry, so a
-// map without entries is encoded as has_* = 0. The entry order is not part of the format: `os` / `ot[k]` name the order used.
-pub open spec fn flag(b: bool) -> u8 { if b { 1 } else { 0 } }
-// (written as successive one-byte appends: `s.push(x)` is "s followed by the byte x")
-pub open spec fn enc_global(g: GlobalPermissions) -> Seq<u8> {
-    Seq::<u8>::empty().push(flag(g.manage_servers)).push(flag(g.read_servers)).push(flag(g.manage_users)).push(flag(g.read_users))
-        .push(flag(g.manage_streams)).push(flag(g.read_streams)).push(flag(g.manage_topics)).push(flag(g.read_topics))
-        .push(flag(g.poll_messages)).push(flag(g.send_messages))
-}
-pub open spec fn enc_topic_entry(k: u32, t: TopicPermissions, more: bool) -> Seq<u8> {
-    le32(k).push(flag(t.manage_topic)).push(flag(t.read_topic)).push(flag(t.poll_messages)).push(flag(t.send_messages)).push(flag(more))
-}
-pub open spec fn enc_topics_from(m: Map<u32, TopicPermissions>, ord: Seq<u32>, i: int) -> Seq<u8>
-    decreases ord.len() - i
-{
-    if i < 0 || i >= ord.len() { Seq::<u8>::empty() }
-    else { enc_topic_entry(ord[i], m[ord[i]], i + 1 < ord.len()) + enc_topics_from(m, ord, i + 1) }
-}
-pub open spec fn enc_topics(m: Map<u32, TopicPermissions>, ord: Seq<u32>) -> Seq<u8> {
-    if ord.len() == 0 { seq![0u8] } else { seq![1u8] + enc_topics_from(m, ord, 0) }
-}
-pub open spec fn enc_stream_head(k: u32, s: StreamV) -> Seq<u8> {
-    le32(k).push(flag(s.manage_stream)).push(flag(s.read_stream)).push(flag(s.manage_topics)).push(flag(s.read_topics))
-        .push(flag(s.poll_messages)).push(flag(s.send_messages))
-}
-pub open spec fn enc_stream_entry(k: u32, s: StreamV, ord_t: Seq<u32>, more: bool) -> Seq<u8> {
-    (enc_stream_head(k, s) + enc_topics(s.topics, ord_t)).push(flag(more))
-}
-pub open spec fn enc_streams_from(m: Map<u32, StreamV>, os: Seq<u32>, ot: Map<u32, Seq<u32>>, i: int) -> Seq<u8>
-    decreases os.len() - i
-{
-    if i < 0 || i >= os.len() { Seq::<u8>::empty() }
-    else { enc_stream_entry(os[i], m[os[i]], ot[os[i]], i + 1 < os.len()) + enc_streams_from(m, os, ot, i + 1) }
-}
-pub open spec fn enc_streams(m: Map<u32, StreamV>, os: Seq<u32>, ot: Map<u32, Seq<u32>>) -> Seq<u8> {
-    if os.len() == 0 { seq![0u8] } else { seq![1u8] + enc_streams_from(m, os, ot, 0) }
-}
-pub open spec fn enc_permv(v: PermV, os: Seq<u32>, ot: Map<u32, Seq<u32>>) -> Seq<u8> { enc_global(v.global) + enc_streams(v.streams, os, ot) }
-// `os` lists every stream id exactly once, `ot[k]` every topic id of stream k exactly once
-pub open spec fn orders_ok(v: PermV, os: Seq<u32>, ot: Map<u32, Seq<u32>>) -> bool {
-    &&& keys_exactly(v.streams, os)
-    &&& forall|k: u32| #[trigger] v.streams.contains_key(k) ==> ot.contains_key(k) && keys_exactly(v.streams[k].topics, ot[k])
-}
-// "bytes is an encoding of p" (for SOME entry order)
-pub open spec fn enc_permissions_rel(p: Permissions, bytes: Seq<u8>) -> bool {
-    exists|os: Seq<u32>, ot: Map<u32, Seq<u32>>| orders_ok(perm_view(p), os, ot) && bytes == enc_permv(perm_view(p), os, ot)
-}
-// the order the SDK encoder uses: the iteration order of the hash maps of this very value
-// (an empty map is not iterated: it has no entries to order)
-pub open spec fn topics_order(o: Option<HashMap<u32, TopicPermissions>>) -> Seq<u32> {
-    match o { None => Seq::<u32>::empty(), Some(m) => if m@.len() == 0 { Seq::<u32>::empty() } else { m.key_order() } }
-}
-pub open spec fn perm_order_s(p: Permissions) -> Seq<u32> {
-    match p.streams { None => Seq::<u32>::empty(), Some(m) => if m@.len() == 0 { Seq::<u32>::empty() } else { m.key_order() } }
-}
-pub open spec fn perm_order_t(p: Permissions) -> Map<u32, Seq<u32>> {
-    match p.streams { None => Map::empty(), Some(m) => Map::new(m@.dom(), |k: u32| topics_order(m@[k].topics)) }
-}
-pub open spec fn enc_permissions(p: Permissions) -> Seq<u8> { enc_permv(perm_view(p), perm_order_s(p), perm_order_t(p)) }
-
 // `SLICE.try_into().unwrap()` (UpdatePermissions::from_bytes): Result::unwrap needs `E: Debug` (formatting only, no run-time meaning here)
 #[verifier::external]
 impl core::fmt::Debug for TryFromSliceError {
     fn fmt(&self, f: &mut core::fmt::Formatter<'_>) -> core::fmt::Result { Ok(()) }
+}
+
+// `bytes.as_ref()` (Bytes: AsRef<[u8]>): the content as a slice
+impl ByteSeq {
+    #[verifier::external_body]
+    pub fn as_ref(&self) -> (r: &[u8])
+        ensures r@ == self@,
+    { unimplemented!() }
 }
